@@ -234,9 +234,11 @@ class Model:
                 break
             if t.status != ' ':
                 continue
-            d = dict(id=encodebytes(t.tid).rstrip(), user_name=t.user,
+            # what the storage computes wins over extension keys of the
+            # same name (as in history())
+            d = dict(t.ext)
+            d.update(id=encodebytes(t.tid).rstrip(), user_name=t.user,
                      description=t.desc)
-            d.update(t.ext)
             d['_n'] = len(t.recs)
             d['_dup'] = self.has_duplicates(t)
             out.append(d)
